@@ -325,3 +325,23 @@ Definition mtime_determines_b : list world -> bool := determines_b same_real_sta
 (* some mtime before the epoch is not a whole number of milliseconds (only then the two roundings differ) *)
 Definition preepoch_fraction_b (ws : list world) : bool :=
   existsb (fun x => Z.ltb (i_mtime (snd x)) 0 && negb (Z.eqb (Z.modulo (i_mtime (snd x)) 1000000) 0)) (all_inodes ws).
+
+(* the step-wise reading of the proviso: every content change of an inode, relative to the last state in which it
+   existed, also changes its (ms, length) stamp.  Weaker than stamp_determines_b: a stamp may RETURN to a value
+   it had two states ago (touch, then a same-size rewrite that sets the old mtime back). *)
+Fixpoint find_prev (id : fid) (prev : list world) : option inode :=
+  match prev with
+  | [] => None
+  | w :: r => match inode_of w id with Some i => Some i | None => find_prev id r end
+  end.
+Fixpoint stepwise_go (prev ws : list world) : bool :=
+  match ws with
+  | [] => true
+  | w :: r =>
+      forallb (fun x => match find_prev (fst x) prev with
+                        | None => true
+                        | Some j => negb (same_code_stamp j (snd x)) || list_eqb (i_data j) (i_data (snd x))
+                        end) (w_inodes w)
+      && stepwise_go (w :: prev) r
+  end.
+Definition stepwise_b (ws : list world) : bool := stepwise_go [] ws.
